@@ -29,7 +29,7 @@ WEIGHTS = {"none": None, "1212": [1.0, 2.0, 1.0, 2.0], "0011": [0.0, 0.0, 1.0, 1
 
 
 def bounds(tier):
-    return {"regressors": [r.name for r in M.REGRESSORS], "targets": "all of {missing,0,1,3}^4", "weights": list(WEIGHTS) if tier != "quick" else ["none", "1212", "0011"],
+    return {"regressors": [r.name for r in M.REGRESSORS], "targets": "all of {missing,0,1,3}^4, and the same plus a common offset of 1.7e9", "weights": list(WEIGHTS) if tier != "quick" else ["none", "1212", "0011"],
             "query_points": Q.tolist(), "n_samples": [1, 3], "sample_seeds": [0, 1]}
 
 
@@ -37,19 +37,22 @@ def shards(tier, seed):
     return [{"tier": tier, "reg": r.name, "wname": w} for r in M.REGRESSORS for w in bounds(tier)["weights"]]
 
 
-def run_case(acc, subj, lab, wname):
-    y = np.array([NAN if v is None else float(v) for v in lab])
+OFFSETS = {"0": 0.0, "1.7e9": 1.7e9}
+
+
+def run_case(acc, subj, lab, wname, offset="0"):
+    y = np.array([NAN if v is None else float(v) + OFFSETS[offset] for v in lab])
     w = WEIGHTS[wname]
     n_lab = int(np.sum(~np.isnan(y)))
-    key = (subj.name, lab, wname)
+    key = (subj.name, lab, wname, offset)
     trivial = subj.needs_label and n_lab == 0
     acc.case(key, trivial=trivial)
     if trivial:
         return
     wit = {"regressor": subj.name, "X": X.tolist(), "y": [None if v is None else v for v in lab], "sample_weight": w, "query_points": Q.tolist()}
-    rep = {"reg": subj.name, "lab": [None if v is None else float(v) for v in lab], "wname": wname}
+    rep = {"reg": subj.name, "lab": [None if v is None else float(v) for v in lab], "wname": wname, "offset": offset}
     size = n_lab * 10 + (0 if w is None else 3)
-    preds = {"n_labeled": n_lab, "weights": wname}
+    preds = {"n_labeled": n_lab, "weights": wname, "offset": offset}
 
     def viol(kind, detail, extra=None):
         acc.violation(subj.name, kind, detail, wit, dict(preds, **(extra or {})), rep, size)
@@ -122,7 +125,7 @@ def run_case(acc, subj, lab, wname):
                 viol("fallback_mean_not_zero", "no labeled sample but predict=%s" % mean.tolist())
         elif could_not_fit:
             lm = float(np.nanmean(y))
-            if not np.allclose(mean, lm, rtol=1e-12, atol=1e-12):
+            if not np.allclose(mean, lm, rtol=1e-12, atol=1e-9):
                 viol("fallback_mean_not_label_mean", "estimator could not be fitted, label mean %r but predict=%s" % (lm, mean.tolist()))
     # ---- sample_y
     # the predictive distribution is only defined under a proper prior or with at least two (effective) labeled samples
@@ -153,6 +156,9 @@ def run_shard(spec):
     subj = M.REG_BY_NAME[spec["reg"]]
     for i, lab in enumerate(itertools.product((None, 0.0, 1.0, 3.0), repeat=4)):
         run_case(acc, subj, lab, spec["wname"])
+        # the same targets with a large common offset (time stamps, prices ...): cancellation must not produce NaN / negative variances
+        if spec["tier"] == "thorough" or i % 2 == 0:
+            run_case(acc, subj, lab, spec["wname"], offset="1.7e9")
         if i % 101 == 0:
             acc.sample({"regressor": subj.name, "y": [None if v is None else v for v in lab], "weights": spec["wname"]}, limit=1)
     acc.states = len(acc.nontrivial)
@@ -162,5 +168,5 @@ def run_shard(spec):
 def replay(spec):
     acc = Acc()
     lab = tuple(None if v is None else float(v) for v in spec["lab"])
-    run_case(acc, M.REG_BY_NAME[spec["reg"]], lab, spec["wname"])
+    run_case(acc, M.REG_BY_NAME[spec["reg"]], lab, spec["wname"], spec.get("offset", "0"))
     return [(s, k) for (s, k, _p) in acc.groups]
